@@ -331,6 +331,7 @@ class InputFile:
                     )
 
         self._validation_options = value
+        self._validators = None
 
     @property
     def validations(self) -> dict | None:
@@ -352,6 +353,7 @@ class InputFile:
             valid_dict = {**valid_dict, **deepcopy(base_validations)}
 
         self._validations = valid_dict
+        self._validators = None
 
     @property
     def validators(self):
